@@ -266,7 +266,7 @@ seq(prop="C10", lean_targets=["TransportVerif.Props.C10"], pkg="packetio", run="
          "every step. non-trivial = a deadline expires while nobody reads or while a read is blocked, is reset after expiry, a read starts after expiry (with or without data queued); "
          "distinct = hash of kind + ops text",
     design_ref="DESIGN.md 7.10", technique="Lean 4 proof: corollaries of the Deadline theorem (C09) for a reader that checks the deadline signal first and then waits for data or the signal; the same history generator runs against all five connection types under a virtual clock",
-    level_text="PENDING", level_note="PENDING",
+    level_text="Theorems (Props/C10.lean) about a reader that checks the deadline signal first and then waits for data or the signal, on top of the Deadline model of C09, for every history of SetReadDeadline(zero|past|future), arrivals, reads and idle periods: signal_iff_passed (the signal is raised exactly when a non-zero deadline is in force and has passed), timeout_only_if_passed, blocked_read_released_at_expiry, timeout_persists (every read keeps failing, also with data queued, until the deadline is set again), later_or_zero_deadline_reads_again. The same history generator runs, under a virtual clock, against all five connection types (packetio.Buffer, dpipe, Bridge endpoint, udp listener Conn, vnet UDPConn) and every step's observation (blocked / data / timeout) is compared with the model and the spec. The pinned vnet socket violated it (stale timer tick: early timeout after extending an unobserved expiry; reads blocking forever after expiry); repaired by a fix: commit (uses deadline.Deadline).", level_note="Trusted: Lean kernel + standard axioms; vtime and the time rewrite of the deadline package and vnet/conn.go; one Read in flight at a time; timer callbacks settled before each observation (their interleavings are C09's subject); udp.Conn is fed through listener.dispatchMsg rather than the kernel socket; Bridge endpoints are not closed.",
     trusted=LEAN_TB + ["Model/ReadDeadline.lean (a reader on top of Model/Deadline.lean) validated against all five connection types under the virtual clock (deadline package and vnet/conn.go rewritten to vtime)",
                        "udp.Conn is fed through listener.dispatchMsg (the read loop's own path) instead of the kernel socket"],
     assumptions=["one Read in flight at a time; timer callbacks are settled before each observation (their interleavings are C09's subject)"])
